@@ -72,6 +72,16 @@ function __runC12(ctor, ops) {
       case "S": p.set(op[1], op[2]); break;
       case "O": p.sort(); break;
       case "X": if (other) { var t = p; p = other; other = t; } break;
+      case "FM": {
+        var cnt = 0, vis = [];
+        p.forEach(function (v, k) {
+          vis.push(hx(k) + "=" + hx(v));
+          if (cnt === op[1]) { if (op[2] === 0) p.append(op[3], op[4]); else if (op[2] === 1) p.delete(op[3]); else p.set(op[3], op[4]); }
+          cnt++;
+        });
+        res = "m" + vis.join(",");
+        break;
+      }
       case "G": { var g = p.get(op[1]); res = g === null ? "n" : "v" + hx(g); break; }
       case "L": res = "l" + p.getAll(op[1]).map(hx).join(","); break;
       case "H1": res = p.has(op[1]) ? "t" : "f"; break;
@@ -233,6 +243,12 @@ func (e *env) genC12() c12case {
 			e.st.Hit("op:X")
 			continue
 		}
+		if e.rng.Chance(6) {
+			// forEach whose callback changes the list while it is being walked
+			c.Ops = append(c.Ops, []interface{}{"FM", e.rng.Intn(4), e.rng.Intn(3), e.word(), e.word()})
+			e.st.Hit("op:FM")
+			continue
+		}
 		switch x := e.rng.Intn(100); {
 		case x < 20:
 			op = []interface{}{"A", e.word(), e.word()}
@@ -293,6 +309,8 @@ func lineOfC12(c c12case) string {
 			t = append(t, name)
 		case "N":
 			t = append(t, "N", fmt.Sprint(toInt(op[1])))
+		case "FM":
+			t = append(t, "FM", fmt.Sprint(toInt(op[1])), fmt.Sprint(toInt(op[2])), hs(op[3].(string)), hs(op[4].(string)))
 		default:
 			t = append(t, name)
 			for _, a := range op[1:] {
